@@ -1,17 +1,24 @@
 ---- MODULE MC_KeyringImpl ----
 EXTENDS KeyringImpl
-\* four primaries x two halves; K0 and K1 share name and e-mail, K3 shares name and comment with K0,
-\* K2 shares the comment only and has a subkey; K0 and K3 are created in the same second.
+\* four primaries x two halves; K0 and K1 share name and e-mail, K3 shares the name with K0, K0's comment differs from K2's / K3's only
+\* by a space; K1 and K2 have an encryption subkey; K0 and K3 are created in the same second.
 MCPrim == {"K0s", "K0p", "K1s", "K1p", "K2s", "K2p", "K3s", "K3p"}
-MCSubs == [p \in MCPrim |-> IF p = "K2s" THEN <<"K2s/1">> ELSE IF p = "K2p" THEN <<"K2p/1">> ELSE <<>>]
-Base(h) == SubSeq(h, 1, 2)
-MCAlias == [h \in MCPrim \cup {"K2s/1", "K2p/1"} |->
-   CASE h \in {"K0s", "K0p"} -> <<"fp0", "Alice", "c1", "a@x">>
+MCSubObj == {"K1s/1", "K1p/1", "K2s/1", "K2p/1"}
+MCSubs == [p \in MCPrim |-> IF p \in {"K1s", "K1p", "K2s", "K2p"} THEN <<p \o "/1">> ELSE <<>>]
+MCAlias == [h \in MCPrim \cup MCSubObj |->
+   CASE h \in {"K0s", "K0p"} -> <<"fp0", "Alice", "c 1", "a@x">>
      [] h \in {"K1s", "K1p"} -> <<"fp1", "Alice", "c2", "a@x">>
      [] h \in {"K2s", "K2p"} -> <<"fp2", "Bob", "c1", "b@x">>
      [] h \in {"K3s", "K3p"} -> <<"fp3", "Alice", "c1", "c@x">>
+     [] h \in {"K1s/1", "K1p/1"} -> <<"fp1sub">>
      [] OTHER -> <<"fp2sub">>]
-MCCreated == [h \in MCPrim \cup {"K2s/1", "K2p/1"} |->
-   CASE h \in {"K0s", "K0p", "K3s", "K3p"} -> 0 [] h \in {"K1s", "K1p"} -> 1 [] OTHER -> 2]
-MCIsPublic == [h \in MCPrim \cup {"K2s/1", "K2p/1"} |-> h \in {"K0p", "K1p", "K2p", "K3p", "K2p/1"}]
+MCCreated == [h \in MCPrim \cup MCSubObj |->
+   CASE h \in {"K0s", "K0p", "K3s", "K3p"} -> 0 [] h \in {"K1s", "K1p", "K1s/1", "K1p/1"} -> 1 [] OTHER -> 2]
+MCIsPublic == [h \in MCPrim \cup MCSubObj |-> h \in {"K0p", "K1p", "K2p", "K3p", "K1p/1", "K2p/1"}]
+\* queries: every alias as it is, two fingerprints written in groups, and a string that belongs to no key
+MCAliases == {"fp0", "fp1", "fp2", "fp3", "fp1sub", "fp2sub", "Alice", "Bob", "c 1", "c1", "c2", "a@x", "b@x", "c@x"}
+MCSqueeze == [q \in MCAliases \cup {"fp 0", "fp 2sub", "no body"} |->
+   CASE q = "fp 0" -> "fp0" [] q = "fp 2sub" -> "fp2sub" [] q = "c 1" -> "c1" [] q = "no body" -> "nobody" [] OTHER -> q]
+MCHexLike == {"fp0", "fp1", "fp2", "fp3", "fp1sub", "fp2sub", "fp 0", "fp 2sub"}
+MCMsgs == {{"fp2sub"}, {"fp1sub", "fp2sub"}}
 ====
